@@ -415,9 +415,22 @@ func (c fmtCase) picture() string {
 		}, p)
 	case "arabic":
 		p = strings.ReplaceAll(p, "0", "٠")
+	case "custom":
+		p = strings.Map(func(r rune) rune {
+			if c, ok := c18Custom[r]; ok {
+				return c
+			}
+			return r
+		}, p)
 	}
 	return p
 }
+
+// c18Custom: every active character of the picture grammar replaced through
+// the decimal-format options (standard -> custom).
+var c18Custom = map[rune]rune{'.': '⁏', ',': '⁞', '%': '℅', '‰': '؉', 'e': 'ⅇ', '#': '@', ';': '‖', '-': '¬'}
+
+const c18CustomOptions = `, {"decimal-separator": "⁏", "grouping-separator": "⁞", "percent": "℅", "per-mille": "؉", "exponent-separator": "ⅇ", "digit": "@", "pattern-separator": "‖", "minus-sign": "¬"}`
 
 func (c fmtCase) expr() string {
 	b, _ := json.Marshal(c.picture())
@@ -427,6 +440,8 @@ func (c fmtCase) expr() string {
 		opts = `, {"decimal-separator": ",", "grouping-separator": "."}`
 	case "arabic":
 		opts = `, {"zero-digit": "٠"}`
+	case "custom":
+		opts = c18CustomOptions
 	}
 	return "$formatNumber(x, " + string(b) + opts + ")"
 }
@@ -518,6 +533,21 @@ func fmtReadBack(c fmtCase, out string) string {
 		out = strings.Map(func(r rune) rune {
 			if r >= '٠' && r <= '٩' {
 				return '0' + (r - '٠')
+			}
+			return r
+		}, out)
+	case "custom":
+		// back to the standard characters (the standard ones must not appear)
+		for std, cu := range c18Custom {
+			if std != 'e' && std != '#' && std != ';' && strings.ContainsRune(strings.TrimSuffix(strings.TrimPrefix(out, sub.Prefix), sub.Suffix), std) && !strings.ContainsRune(sub.Prefix+sub.Suffix, std) {
+				return fmt.Sprintf("the numeral contains the standard character %q although the options replace it by %q", std, cu)
+			}
+		}
+		out = strings.Map(func(r rune) rune {
+			for std, cu := range c18Custom {
+				if r == cu {
+					return std
+				}
 			}
 			return r
 		}, out)
@@ -886,6 +916,8 @@ func TestC18_FormatNumber(t *testing.T) {
 			c.Options = "swap"
 		case 1:
 			c.Options = "arabic"
+		case 2:
+			c.Options = "custom"
 		}
 		switch rapid.IntRange(0, 9).Draw(rt, "xkind") {
 		case 0:
